@@ -1,4 +1,5 @@
 import JediModel.Lemmas.Scopes
+import JediModel.Lemmas.ScopesChain
 /-! # C03 — Name resolution follows Python's scoping rules
 
 `goto` is jedi's algorithm, `varOf` Python's variable identity (owning scope of the
@@ -110,6 +111,102 @@ theorem goto_module_use (p : Prog) (hwf : WF p = true) (u : Nat) (o : Occ)
     rw [hod]
     simp [hrole]
 
+/-! ## The general statement -/
+
+/-- Hypothesis of `goto_same_var_partial` for the use at position `u` (decidable; evaluated by
+the driver on every generated program so the evidence reports how many executed uses it covers).
+It is `Covered` (see `Lemmas/ScopesChain.lean`) started the way jedi starts the walk. -/
+def CoveredUse (p : Prog) (u : Nat) : Bool :=
+  match p.occs[u]? with
+  | none => true
+  | some o =>
+    match p.kind o.scope with
+    | .module => true
+    | .klass =>
+      if (defsIn p o.scope o.name (some o.stmt)).isEmpty then
+        Covered p o.name p.scopes.length (p.parent o.scope) (some o.stmt)
+          (declaredGlobal p o.scope o.name ||
+            (!declaredNonlocal p o.scope o.name && bindsIn p o.scope o.name))
+      else true
+    | _ => Covered p o.name (p.scopes.length + 1) o.scope (some o.stmt) false
+
+/-- **Name resolution follows Python's scoping rules** (general form).
+FULL statement (no `CoveredUse`) is false of the unchanged code — see the witnesses below.
+For every well-formed program and every use satisfying `CoveredUse`, every landing of `goto`
+is a binding of, or a `global` declaration for, exactly the variable `(owning scope, name)`
+that Python's symbol-table rules assign to the use. -/
+theorem goto_same_var_partial (p : Prog) (hwf : WF p = true) (u : Nat) (o : Occ)
+    (ho : p.occs[u]? = some o) (hr : o.role = .use) (hc : CoveredUse p u = true) :
+    ∀ d ∈ goto p u, varOf p d = varOf p u := by
+  intro d hd
+  have hsl : o.scope < p.scopes.length := by
+    unfold WF at hwf
+    simp only [Bool.and_eq_true] at hwf
+    have := List.all_eq_true.mp hwf.2 o (List.mem_of_getElem? ho)
+    simpa using this
+  unfold CoveredUse at hc
+  rw [ho] at hc
+  simp only at hc
+  have hgoto : goto p u = gotoFrom p o.name (p.scopes.length + 1) o.scope (some o.stmt) := by
+    unfold goto; rw [ho]; simp [hr, Role.isDef]
+  cases hk : p.kind o.scope with
+  | module =>
+    -- a scope of kind module inside the table is scope 0 or behaves exactly like it
+    rw [varOf_of_use ho hr]
+    rw [hgoto] at hd
+    have h0 := wf_kind0 hwf
+    have hu : ownerOfUse p o.scope o.name o.stmt = 0 := by simp [ownerOfUse, hk]
+    rw [hu]
+    unfold gotoFrom at hd
+    simp only [hk] at hd
+    rcases List.mem_append.mp hd with h | h
+    · obtain ⟨od, hod, hn, hsc, hdef, -⟩ := (mem_defsIn p 0 o.name _ d).mp (mem_lastOf h)
+      rw [varOf_of_def hod hdef, hsc]
+      simp [ownerOfBinding, h0]
+    · obtain ⟨od, hod, hn, hrole⟩ := (mem_globalDecls p o.name d).mp h
+      unfold varOf
+      rw [hod]
+      simp [hrole]
+  | klass =>
+    simp only [hk] at hc
+    by_cases he : (defsIn p o.scope o.name (some o.stmt)).isEmpty = true
+    · simp only [he, if_true] at hc
+      have hkm : p.kind o.scope ≠ .module := by rw [hk]; decide
+      have hpl := wf_parent_lt hwf o.scope hkm
+      rw [hgoto] at hd
+      unfold gotoFrom at hd
+      simp only [hk, lastOf_isEmpty.mpr he] at hd
+      have := gotoFrom_sound hwf o.name p.scopes.length (p.parent o.scope) (some o.stmt) _
+        (by omega) hc d hd
+      rw [this, varOf_of_use ho hr]
+      have hnb : boundBefore p o.scope o.name o.stmt = false := by
+        unfold boundBefore
+        have : defsIn p o.scope o.name (some o.stmt) = [] := by simpa using he
+        simp [this]
+      unfold ownerOfUse
+      simp only [hkm, if_false, hk, if_true, hnb, Bool.false_eq_true]
+      by_cases h1 : declaredGlobal p o.scope o.name = true
+      · simp [h1]
+      · simp only [h1, Bool.false_eq_true, if_false, Bool.false_or]
+        by_cases h2 : declaredNonlocal p o.scope o.name = true
+        · simp [h2]
+        · by_cases h3 : bindsIn p o.scope o.name = true
+          · simp [h2, h3]
+          · simp [h2, h3]
+    · have hne : defsIn p o.scope o.name (some o.stmt) ≠ [] := by
+        intro h; apply he; simp [h]
+      exact (goto_exact_local p u o ho hr (Or.inr (Or.inr hk)) hne).2 d hd
+  | function | lambda | comp =>
+    simp only [hk] at hc
+    rw [hgoto] at hd
+    have := gotoFrom_sound hwf o.name (p.scopes.length + 1) o.scope (some o.stmt) false
+      (by omega) hc d hd
+    rw [this, varOf_of_use ho hr]
+    simp only [Bool.false_eq_true, if_false]
+    conv => lhs; unfold resolveFree
+    unfold ownerOfUse
+    simp [hk]
+
 /-! ## Counter-witnesses to the unrestricted statement
 "for every executed use, every landing denotes the variable Python reads" is FALSE of the
 unchanged code.  Each witness is a concrete program on which the model's `goto` lands on a
@@ -161,12 +258,24 @@ theorem global_shadow_witness :
     WF witnessGlobalShadow = true ∧ goto witnessGlobalShadow 5 = [2] ∧
     varOf witnessGlobalShadow 5 = 0 ∧ varOf witnessGlobalShadow 2 = 1 := by decide
 
+/-- the four witness programs above are exactly outside the hypothesis -/
+theorem witnesses_not_covered :
+    CoveredUse witnessCompInClass 3 = false ∧ CoveredUse witnessNestedClass 4 = false ∧
+    CoveredUse witnessClassLoadName 4 = false ∧ CoveredUse witnessGlobalShadow 5 = false := by
+  decide
+
 /-! ## non-vacuity -/
 
 open Kind Role in
 /-- `def f(a):` / `    a = 0` / `    a` — hypotheses of `goto_exact_local` hold, landing = the assignment -/
 example : let p : Prog := { scopes := [⟨module, 0⟩, ⟨function, 0⟩],
                             occs := [⟨1, defName, 0, 0⟩, ⟨0, param, 1, 1⟩, ⟨0, bind, 1, 2⟩, ⟨0, use, 1, 3⟩] }
-    WF p = true ∧ defsIn p 1 0 (some 3) ≠ [] ∧ goto p 3 = [2] := by decide
+    WF p = true ∧ defsIn p 1 0 (some 3) ≠ [] ∧ goto p 3 = [2] ∧ CoveredUse p 3 = true := by decide
+
+open Kind Role in
+/-- `a = 0` / `def f():` / `    def g():` / `        a` — a free variable two functions up is covered -/
+example : let p : Prog := { scopes := [⟨module, 0⟩, ⟨function, 0⟩, ⟨function, 1⟩],
+                            occs := [⟨0, bind, 0, 0⟩, ⟨1, defName, 0, 1⟩, ⟨2, defName, 1, 2⟩, ⟨0, use, 2, 3⟩] }
+    WF p = true ∧ CoveredUse p 3 = true ∧ goto p 3 = [0] := by decide
 
 end JediModel.Props.C03
